@@ -201,6 +201,8 @@ class UPSequentialSimulator(Engine, SequentialSimulatorMixin):
                     raise UPProblemDefinitionError(
                         "The initial state of the problem already violates the state invariants"
                     )
+            # cached only once it has been checked, so that every call raises
+            self._initial_state = initial_state
         assert self._initial_state is not None
         return self._initial_state
 
